@@ -354,6 +354,27 @@ def http_no_match(chk, prog, cfg):
                        "an unrouted request is not answered with the error handler's 404", where=b.where(g), cfg=cfg)
 
 
+def ws_dispatch_guard(chk, prog, cfg):
+    """R5.ws_dispatch: "WebSocket requests follow the same host-then-route rule": whether an upgrade request is handed to the WebSocket lookup
+    depends on the request alone (it parsed, and asks for `Upgrade: websocket`) — not on what is registered where (a flag computed from the
+    default sub-app's routes hides WebSocket routes that exist only on a host sub-app)."""
+    from . import c01
+    n = 0
+    for b in c01.find_loops(prog):
+        for blk, t in b.calls_to(r"::call_websocket_handler$"):
+            n += 1
+            odd = []
+            for s_, lab, gd, info in core.guards_dominating(prog, b, blk):
+                if not isinstance(gd, tuple):
+                    continue
+                if desc_contains(gd, lambda y: (y[0] in ("param", "upvar") and core.re.search(r"subapp", str(y[-1]) or "") is not None) or
+                                 (y[0] == "call" and core.re.search(r"route::SubApp|::get_handler$", y[1]) is not None)):
+                    odd.append((lab, core.short(str(gd))[:80]))
+            chk.ob("R5.ws_dispatch", b.path, "the WebSocket lookup is entered for every parsed `Upgrade: websocket` request (no condition on the registered routes)", not odd,
+                   f"the dispatch also depends on {odd}: an upgrade request for a WebSocket route of a host sub-app is answered as ordinary HTTP", where=b.where(blk), cfg=cfg)
+    chk.floor(f"WebSocket dispatch sites in the connection loop [{cfg}]", n, 1)
+
+
 def fresh_lookup(chk, prog, cfg):
     """R6: in the connection loop the handler that serves a request comes from the route lookup made for that request
     and from nothing else (no handler remembered from an earlier request on the connection)."""
@@ -434,6 +455,7 @@ def run(chk):
         registration(chk, prog, cfg)
         http_no_match(chk, prog, cfg)
         fresh_lookup(chk, prog, cfg)
+        ws_dispatch_guard(chk, prog, cfg)
         literal_matching(chk, prog, cfg)
         # the path that is matched is the target up to its first '?'
         from . import shared
